@@ -268,6 +268,8 @@ func (e *c15Env) trigger(ev *c15Event) error {
 	})
 }
 
+var c15TrailN int64
+
 // request publishes a query request on the gateway connection and flushes it.
 func (e *c15Env) request(ev *c15Event, kind, when string) *c15Req {
 	rq := &c15Req{inbox: nats.NewInbox(), kind: kind, when: when}
@@ -278,6 +280,10 @@ func (e *c15Env) request(ev *c15Event, kind, when string) *c15Req {
 		rq.payload = `{}`
 	case "malformed":
 		rq.payload = `{"query":`
+	case "trailing": // a complete query object followed by bytes that make the payload invalid JSON
+		rq.payload = []string{`{"query":"a=1"}}`, `{"query":"a=1"} x`, `{"query":"a=1"}{"query":"b"}`, `{"query":"a=1"}]`}[int(atomic.AddInt64(&c15TrailN, 1))%4]
+	case "emptyquery":
+		rq.payload = `{"query":""}`
 	case "empty":
 		rq.payload = ``
 	}
@@ -417,7 +423,7 @@ func c15Round(c *core.Ctx, env *c15Env, p c15Params, round int, gate string) boo
 		go func(ev *c15Event) {
 			defer wg.Done()
 			rr := newRand(core.SubSeed(c.Batch.Seed, ev.rid))
-			kinds := []string{"valid", "valid", "valid", "missing", "malformed", "empty"}
+			kinds := []string{"valid", "valid", "valid", "missing", "malformed", "empty", "trailing", "emptyquery"}
 			n := rr.Intn(4)
 			if gate != "" {
 				n = 2
